@@ -11,6 +11,44 @@ use std::collections::HashMap;
 use std::fs::File;
 use std::io::{self, BufRead, BufReader, Write};
 
+/// Allocator with a hard cap: a library loop that grows a `Vec` forever (possible only on a
+/// corrupted arena) aborts the process instead of exhausting the machine.
+struct Capped;
+static USED: std::sync::atomic::AtomicUsize = std::sync::atomic::AtomicUsize::new(0);
+const CAP: usize = 1 << 30;
+unsafe impl std::alloc::GlobalAlloc for Capped {
+    unsafe fn alloc(&self, l: std::alloc::Layout) -> *mut u8 {
+        use std::sync::atomic::Ordering::Relaxed;
+        if USED.fetch_add(l.size(), Relaxed) + l.size() > CAP {
+            USED.fetch_sub(l.size(), Relaxed);
+            return std::ptr::null_mut();
+        }
+        std::alloc::System.alloc(l)
+    }
+    unsafe fn realloc(&self, p: *mut u8, l: std::alloc::Layout, new: usize) -> *mut u8 {
+        use std::sync::atomic::Ordering::Relaxed;
+        if new > l.size() && USED.fetch_add(new - l.size(), Relaxed) + (new - l.size()) > CAP {
+            USED.fetch_sub(new - l.size(), Relaxed);
+            return std::ptr::null_mut();
+        }
+        let q = std::alloc::System.realloc(p, l, new);
+        if q.is_null() {
+            if new > l.size() {
+                USED.fetch_sub(new - l.size(), Relaxed);
+            }
+        } else if new < l.size() {
+            USED.fetch_sub(l.size() - new, Relaxed);
+        }
+        q
+    }
+    unsafe fn dealloc(&self, p: *mut u8, l: std::alloc::Layout) {
+        USED.fetch_sub(l.size(), std::sync::atomic::Ordering::Relaxed);
+        std::alloc::System.dealloc(p, l)
+    }
+}
+#[global_allocator]
+static ALLOC: Capped = Capped;
+
 /// SplitMix64.
 pub struct Rng(pub u64);
 impl Rng {
